@@ -67,9 +67,9 @@ const c14Age = 6 * time.Minute // > routing.route_ttl (5 min)
 
 // c14Gen is one genuine announcement of the origin.
 type c14Gen struct {
-	Seq  uint64
-	S    []int // agents connected to O when it was issued (O excluded)
-	Mark int   // length of the sent log when it was issued: only frames written afterwards carry IT
+	Lo, Seq uint64 // the announcement used the origin's sequence numbers Lo..Seq (one per group of routes; one group here)
+	S       []int  // agents connected to O when it was issued (O excluded)
+	Mark    int    // length of the sent log when it was issued: only frames written afterwards carry IT
 }
 
 type c14Mesh struct {
@@ -126,9 +126,10 @@ func (m *c14Mesh) apply(ev string) error {
 			}
 		}
 		mark := len(m.net.sent)
+		lo := m.net.agents[i].routeMgr.GetCurrentSequence() + 1
 		m.net.agents[i].flooder.AnnounceLocalRoutes()
 		if i == m.sc.Origin {
-			g := c14Gen{Seq: m.net.agents[i].routeMgr.GetCurrentSequence(), Mark: mark}
+			g := c14Gen{Lo: lo, Seq: m.net.agents[i].routeMgr.GetCurrentSequence(), Mark: mark}
 			d := m.net.dist()
 			for x := 0; x < m.net.n; x++ {
 				if x != i && d[i][x] > 0 {
@@ -143,6 +144,12 @@ func (m *c14Mesh) apply(ev string) error {
 	case "c":
 		e := m.sc.LateEdges[at(1)]
 		m.net.connect(e[0], e[1])
+	case "x":
+		// late link k goes down again (real disconnect path). Never enabled in the search (the
+		// oracle assumes links are only added); available in hand-written replay files, used for
+		// the reconnect experiment described in NOTES.md.
+		e := m.sc.LateEdges[at(1)]
+		m.net.disconnect(e[0], e[1])
 	default:
 		return fmt.Errorf("unknown event")
 	}
@@ -180,19 +187,66 @@ func (m *c14Mesh) sentTo() [][]int {
 	out := make([][]int, len(m.gens))
 	oid := m.net.ids[m.sc.Origin]
 	for gi, g := range m.gens {
-		got := map[int]bool{}
+		got := map[int]map[uint64]bool{}
 		for _, f := range m.net.sent[g.Mark:] {
 			adv := nsAdvInfo(f.Bytes)
-			if adv != nil && adv.OriginAgent == oid && adv.Sequence == g.Seq {
-				got[f.To] = true
+			if adv != nil && adv.OriginAgent == oid && adv.Sequence >= g.Lo && adv.Sequence <= g.Seq {
+				if got[f.To] == nil {
+					got[f.To] = map[uint64]bool{}
+				}
+				got[f.To][adv.Sequence] = true
 			}
 		}
-		for x := range got {
-			out[gi] = append(out[gi], x)
+		for x, seqs := range got {
+			if uint64(len(seqs)) == g.Seq-g.Lo+1 {
+				out[gi] = append(out[gi], x)
+			}
 		}
 		sort.Ints(out[gi])
 	}
 	return out
+}
+
+// replaySeqs returns the sequence numbers under which routes of O were sent in full-table
+// replays (or relayed copies of them) to agent x (x < 0: to anybody). A replay is a
+// ROUTE_ADVERTISE with origin O whose seen-by list does not start with O: SendFullTable
+// starts the list with the replaying agent, AnnounceLocalRoutes with the origin.
+func (m *c14Mesh) replaySeqs(x int) map[uint64]bool {
+	out := map[uint64]bool{}
+	oid := m.net.ids[m.sc.Origin]
+	for _, f := range m.net.sent {
+		if x >= 0 && f.To != x {
+			continue
+		}
+		adv := nsAdvInfo(f.Bytes)
+		if adv == nil || adv.OriginAgent != oid || f.From == m.sc.Origin {
+			continue
+		}
+		if len(adv.SeenBy) > 0 && adv.SeenBy[0] == oid {
+			continue
+		}
+		out[adv.Sequence] = true
+	}
+	return out
+}
+
+func c14Why(replays map[uint64]bool, lo, hi uint64) string {
+	if len(replays) == 0 {
+		return "no-replay-involved"
+	}
+	higher := false
+	for s := range replays {
+		if s >= lo && s <= hi {
+			return "replay-used-same-sequence"
+		}
+		if s > hi {
+			higher = true
+		}
+	}
+	if higher {
+		return "replay-used-higher-sequence"
+	}
+	return "replay-used-lower-sequence"
 }
 
 // originRoutes returns agent x's routes with origin O: "kind|key" -> route.
@@ -233,7 +287,7 @@ func (m *c14Mesh) key(hist []string) string {
 		fmt.Fprintf(&sb, "fresh%d=%v\n", x, fresh)
 	}
 	for gi, g := range m.gens {
-		fmt.Fprintf(&sb, "gen%d seq=%d S=%v", gi, g.Seq, g.S)
+		fmt.Fprintf(&sb, "gen%d seq=%d-%d S=%v", gi, g.Lo, g.Seq, g.S)
 	}
 	fmt.Fprintf(&sb, " sent=%v", m.sentTo())
 	return sb.String()
@@ -286,18 +340,7 @@ func c14Oracle(r *vmc.Result, m *c14Mesh, hist []string, expected []string) {
 			if has[x] {
 				continue
 			}
-			// who held it back: a relay in S that was sent (O, seq) although it already stored that very pair
-			why := "other"
-			for _, y := range g.S {
-				if !has[y] {
-					continue
-				}
-				for _, rt := range m.originRoutes(y) {
-					if rt.Seq == g.Seq && rt.Age > m.ttl {
-						why = "relay-seen-cache-preempted-by-replay"
-					}
-				}
-			}
+			why := c14Why(m.replaySeqs(-1), g.Lo, g.Seq)
 			r.Violate("C14/announcement-not-delivered/"+why,
 				fmt.Sprintf("%s: announcement (origin n%d, seq %d) was never sent to n%d, which was connected to the origin when it was issued (history %v)", sc, sc.Origin, g.Seq, x, hist), rep())
 		}
@@ -313,27 +356,13 @@ func c14Oracle(r *vmc.Result, m *c14Mesh, hist []string, expected []string) {
 		a.routeMgr.CleanupStaleForwardRoutes(m.ttl)
 		a.routeMgr.CleanupStaleAgentRoutes(m.ttl)
 		after := m.originRoutes(x)
-		// why a route was not renewed is decided per agent from the origin's routes that were
-		// NOT written since the announcement: the highest sequence they carry, against the
-		// announcement's
+		// why: under which sequence numbers had x been handed replays of the origin's routes
+		why := c14Why(m.replaySeqs(x), last.Lo, last.Seq)
 		var staleMax uint64
-		stale := false
 		for _, b := range before {
-			if b.Age > m.ttl {
-				stale = true
-				if b.Seq > staleMax {
-					staleMax = b.Seq
-				}
+			if b.Age > m.ttl && b.Seq > staleMax {
+				staleMax = b.Seq
 			}
-		}
-		why := "no-route-of-origin-stored"
-		switch {
-		case stale && staleMax > last.Seq:
-			why = "stored-sequence-higher-than-origin"
-		case stale && staleMax == last.Seq:
-			why = "stored-sequence-equal-to-origin"
-		case stale:
-			why = "stored-sequence-lower"
 		}
 		ok := true
 		for _, k := range expected {
@@ -350,13 +379,7 @@ func c14Oracle(r *vmc.Result, m *c14Mesh, hist []string, expected []string) {
 			}
 		}
 		if ok {
-			// did the routes carry a sequence other than the announcement's before the cleanup (replay-stamped)?
-			viaReplay := "plain"
-			for _, b := range before {
-				if b.Seq != last.Seq {
-					viaReplay = "other-seq"
-				}
-			}
+			viaReplay := why
 			r.Nontrivial(fmt.Sprintf("renewed|%s|n%d|gens=%d|%s", sc.String(), x, len(m.gens), viaReplay))
 			r.Outcome("renewed|" + viaReplay)
 		} else {
